@@ -13,6 +13,7 @@ from sim import simset
 from sim.sched import HarnessError, InvalidCase, Violation
 
 ID = "C01"
+NEEDS_ZYGOTE = True          # only used if a change makes the distance functions run joblib workers in processes
 TITLE = "Bottleneck distance is the true min-max matching cost"
 CASE_TIMEOUT_S = 120.0
 PLAN = {
@@ -175,6 +176,11 @@ def oracle_value(SA, TB):
 
 
 def run_case(case, sched):
+    with mc.parallel_world(sched, case):
+        return _run_case(case, sched)
+
+
+def _run_case(case, sched):
     inp, cfg = case["inputs"], case["config"]
     dgmgen.check_diagram_json(inp["dgm1"])
     dgmgen.check_diagram_json(inp["dgm2"])
